@@ -125,10 +125,12 @@ class Env(object):
         import periodictable.formulas as F
         self.formula, self.mixw, self.mixv = F.formula, F.mix_by_weight, F.mix_by_volume
         pt = self.pt
-        self.amass = {}
-        for name in ("H", "D", "O", "Na", "Cl", "Fe", "Co", "Ti", "Ni", "Si"):
-            self.amass[name] = getattr(pt, name).mass
-        self.eldens = dict((s, getattr(pt, s).density) for s in ("Fe", "Co", "Ti", "Ni"))
+        self.amass = {"D": pt.D.mass, "T": pt.T.mass}
+        self.eldens = {}
+        for el in pt.elements:
+            if el.number > 0:
+                self.amass[el.symbol] = el.mass
+                self.eldens[el.symbol] = el.density
         self.base_ref = {}
         for text, atoms, dens in BASE_TABLE:
             a = dict((k, float(v)) for k, v in atoms.items())
@@ -153,6 +155,68 @@ class Env(object):
                 raise KeyError(k)
             out[k] = out.get(k, 0.0) + c
         return out
+
+
+# ================================================================== caller-owned objects
+def cheap_state(f):
+    """Everything a caller can have stored on a Formula: the structure (an immutable nested tuple, compared
+    by identity), density, name and any other public instance attribute (total_mass, thickness ...).
+    Private attributes (a leading underscore: possible caches) are not looked at."""
+    try:
+        extra = tuple(sorted((k, v) for k, v in vars(f).items()
+                             if not k.startswith("_") and k not in ("structure", "density", "name")))
+    except TypeError:
+        extra = ()
+    return (f.structure, f.density, f.name, extra)
+
+
+def cheap_diff(old, new):
+    if new[0] is not old[0]:
+        return "structure"
+    if new[1] != old[1]:
+        return "density"
+    if new[2] != old[2]:
+        return "name"
+    if new[3] != old[3]:
+        ko, kn = dict(old[3]), dict(new[3])
+        for k in sorted(set(ko) | set(kn)):
+            if ko.get(k, KeyError) != kn.get(k, KeyError):
+                return "attribute-" + k
+    return None
+
+
+OBSERVED = ("str", "atoms", "hill", "mass", "molecular_mass", "mass_fraction", "charge", "density", "natural_density")
+
+
+def observe(f):
+    """The values a caller can read from a Formula (and that an implementation could memoise on the object):
+    read on every component BEFORE it is used as an operand, and compared afterwards."""
+    out = []
+    for what in OBSERVED:
+        try:
+            if what == "str":
+                v = str(f)
+            elif what == "atoms":
+                v = sorted((str(a), c) for a, c in f.atoms.items())
+            elif what == "hill":
+                v = str(f.hill)
+            elif what == "mass_fraction":
+                v = sorted((str(a), c) for a, c in f.mass_fraction.items())
+            elif what == "natural_density":
+                v = None if f.density is None else f.natural_density
+            else:
+                v = getattr(f, what)
+        except Exception as e:
+            v = "raises " + type(e).__name__
+        out.append(v)
+    return out
+
+
+def observe_diff(old, new):
+    for what, a, b in zip(OBSERVED, old, new):
+        if a != b:
+            return "observed-" + what
+    return None
 
 
 # ================================================================== Part A: mixture graph
@@ -195,22 +259,29 @@ class Graph(object):
         return R.mix(e[0], parts, self.env.amass)
 
     def lib_of(self, e):
+        """Builds the component from scratch.  Every intermediate object is observed (str, atoms, hill,
+        mass ...) before it is used as an operand of n*f or of a mix call."""
         env = self.env
         if isinstance(e, str):
-            return env.formula(e)
+            f = env.formula(e)
+            observe(f)
+            return f
         if e[0] == "x":
             f = self.lib_of(e[2])
             g = e[1] * f
             g.density = f.density
+            observe(g)
             return g
         args = []
         for c, q in e[1]:
             args += [self.lib_of(c), q]
-        return (env.mixw if e[0] == "w" else env.mixv)(*args)
+        f = (env.mixw if e[0] == "w" else env.mixv)(*args)
+        observe(f)
+        return f
 
     def component(self, e, acc):
-        """(expr, live formula, reference, snapshot) of a component; a mixture used as a component is
-        first checked as a state of its own (a violating state has no successors)."""
+        """[expr, live formula, reference, cheap state, observed values] of a component; a mixture used as a
+        component is first checked as a state of its own (a violating state has no successors)."""
         k = jdump(e)
         if k not in self.lib:
             ok = True
@@ -225,27 +296,35 @@ class Graph(object):
                     ok = not probe.viol
             if ok:
                 f = self.lib_of(e)
-                self.lib[k] = [e, f, self.ref_of(e), (f.structure, f.density)]
+                self.lib[k] = [e, f, self.ref_of(e), cheap_state(f), observe(f)]
             else:
                 self.lib[k] = None
         return self.lib[k]
 
-    def _fresh(self, comp):
-        e, f, ref, snap = comp
-        if f.structure is not snap[0] or f.density != snap[1]:
-            comp[1] = f = self.lib_of(e)
-            comp[3] = (f.structure, f.density)
-            return True
-        return False
+    def _rebuild(self, comp):
+        comp[1] = f = self.lib_of(comp[0])
+        comp[3], comp[4] = cheap_state(f), observe(f)
+
+    def altered(self, comps, deep=False):
+        """Name of the first difference between the caller's objects and their state before the call (None if
+        they are unaltered); an altered component is replaced by a fresh one."""
+        what = None
+        for c in comps:
+            w = cheap_diff(c[3], cheap_state(c[1]))
+            if w is None and deep:
+                w = observe_diff(c[4], observe(c[1]))
+            if w is not None:
+                self._rebuild(c)
+                what = what or w
+        return what
 
     # ---- one transition
-    def event(self, kind, comps, qs, acc, argstr=False):
+    def event(self, kind, comps, qs, acc, argstr=False, deep=False):
+        """One call of the real mix_by_weight / mix_by_volume with the live component objects (the same
+        objects serve every event of a shard, and one object may occur several times in one call)."""
         env = self.env
         expr = [kind, [[c[0], q] for c, q in zip(comps, qs)]]
         refs = [c[2] for c in comps]
-        if kind == "v" and any(q == 0 and m.density is None for m, q in zip(refs, qs)):
-            acc.count("excluded_zero_volume_of_unknown_density")
-            return
         want = R.mix(kind, list(zip(refs, qs)), env.amass)
         args = []
         for c, q in zip(comps, qs):
@@ -256,52 +335,131 @@ class Graph(object):
         if sum(1 for q in qs if q > 0) >= 2 or want is R.ERROR:
             acc.nontrivial += 1
         case = dict(mode="graph", expr=expr, argstr=argstr)
+        if deep:
+            case["deep"] = True
+        got = exc = None
         try:
             got = (env.mixw if kind == "w" else env.mixv)(*args)
         except Exception as e:
+            exc = e
+        if not argstr:
+            what = self.altered(comps, deep)
+            if what:
+                return self._viol_altered(acc, kind, what, case)
+        bad = self.judge(kind, refs, qs, want, got, exc)
+        if bad[0] == "ok":
+            acc.outcome("A:" + bad[1])
+            return
+        cause = bad[1] + self.zero_cause(kind, args[0::2], refs, qs)
+        return self._viol(acc, "mix:%s:%s" % (kind, cause), case, want, bad[2], bad[3])
+
+    def judge(self, kind, refs, qs, want, got, exc):
+        """-> ("ok", outcome class) | ("bad", cause, observed, detail)."""
+        env = self.env
+        zud = ":zero-part-without-density" if any(q == 0 and m.density is None for m, q in zip(refs, qs)) else ""
+        if exc is not None:
             if want is R.ERROR:
-                acc.outcome("A:raises:missing-density")
-                return
-            return self._viol(acc, "mix:%s:raises-%s" % (kind, type(e).__name__), case, want,
-                              "%s: %s" % (type(e).__name__, e))
-        finally:
-            if not argstr:
-                for c in comps:
-                    if self._fresh(c):
-                        acc.count("component_changed_by_call")
+                return ("ok", "raises:missing-density")
+            return ("bad", "raises-%s" % type(exc).__name__, "%s: %s" % (type(exc).__name__, exc), None)
         if want is R.ERROR:
-            return self._viol(acc, "mix:v:accepted-missing-density", case, want, self._obs(got))
+            return ("bad", "accepted-missing-density", self._obs(got), None)
         try:
             atoms = env.names(got.atoms)
             density = got.density
         except Exception as e:
-            return self._viol(acc, "mix:%s:result-unreadable-%s" % (kind, type(e).__name__), case, want,
-                              "%s: %s" % (type(e).__name__, e))
+            return ("bad", "result-unreadable-%s" % type(e).__name__, "%s: %s" % (type(e).__name__, e), None)
         if want is R.EMPTY:
             if any(c != 0 for c in atoms.values()):
-                return self._viol(acc, "mix:%s:species" % kind, case, want, self._obs(got))
-            acc.outcome("A:ok:empty")
-            return
+                return ("bad", "species", self._obs(got), None)
+            return ("ok", "ok:empty")
         bad = R.compare_atoms(atoms, want.atoms, env.amass, REL)
         if bad:
-            return self._viol(acc, "mix:%s:%s" % (kind, bad[0]), case, want, self._obs(got), bad[1])
-        if kind == "w" and any(q == 0 and m.density is None for m, q in zip(refs, qs)):
-            acc.outcome("A:ok:density-not-judged")
-            return
+            return ("bad", bad[0], self._obs(got), bad[1])
         if want.density is None:
             if density is not None:
-                return self._viol(acc, "mix:%s:density-not-none" % kind, case, want, self._obs(got))
-            acc.outcome("A:ok:no-density")
-        else:
-            if density is None or not close(density, want.density, REL):
-                return self._viol(acc, "mix:%s:density" % kind, case, want, self._obs(got))
-            acc.outcome("A:ok:density" + (":zero-dropped" if 0 in qs else ""))
+                return ("bad", "density-not-none", self._obs(got), None)
+            return ("ok", "ok:no-density")
+        if density is None or not close(density, want.density, REL):
+            return ("bad", "density", self._obs(got), None)
+        return ("ok", "ok:density" + (":zero-dropped" if 0 in qs else "") + zud)
+
+    def zero_cause(self, kind, objs, refs, qs):
+        """Input class of a failing call: ':zero-part-without-density' when the call has a zero quantity of a
+        material without density and is right once exactly those parts are left out (they must vanish like
+        any other zero quantity), '' otherwise."""
+        keep = [i for i in range(len(qs)) if not (qs[i] == 0 and refs[i].density is None)]
+        if len(keep) == len(qs):
+            return ""
+        if keep:
+            args = []
+            for i in keep:
+                args += [objs[i], qs[i]]
+            got = exc = None
+            try:
+                got = (self.env.mixw if kind == "w" else self.env.mixv)(*args)
+            except Exception as e:
+                exc = e
+            r2, q2 = [refs[i] for i in keep], [qs[i] for i in keep]
+            if self.judge(kind, r2, q2, R.mix(kind, list(zip(r2, q2)), self.env.amass), got, exc)[0] != "ok":
+                return ""
+        return ":zero-part-without-density"
+
+    def deep_check(self, kind, comps, qtuples, acc):
+        """After all quantity tuples of one component tuple: the observable values of the caller's objects
+        (not only the stored attributes) are what they were.  On a difference the quantity tuple that
+        causes it is searched on fresh objects."""
+        what = self.altered(comps, deep=True)
+        if what is None:
+            return
+        fn = self.env.mixw if kind == "w" else self.env.mixv
+        culprit = None
+        for q in qtuples:
+            args = []
+            for c, x in zip(comps, q):
+                args += [c[1], x]
+            try:
+                fn(*args)
+            except Exception:
+                pass
+            acc.evaluations += 1
+            w = self.altered(comps, deep=True)
+            if w:
+                culprit, what = q, w
+                break
+        q = culprit or qtuples[-1]
+        case = dict(mode="graph", expr=[kind, [[c[0], x] for c, x in zip(comps, q)]], argstr=False, deep=True)
+        self._viol_altered(acc, kind, what, case,
+                           None if culprit else "only after the whole sequence of quantity tuples on the same objects")
 
     def _obs(self, got):
         try:
             return "atoms=%s density=%r" % (sorted((str(a), c) for a, c in got.atoms.items()), got.density)
         except Exception as e:
             return "unreadable result: %r" % e
+
+    def _viol_altered(self, acc, kind, what, case, detail=None):
+        expr = case["expr"]
+        fn = "mix_by_weight" if kind == "w" else "mix_by_volume"
+        lines = ["from periodictable import formula, mix_by_weight, mix_by_volume"]
+        names = []
+        for i, (c, q) in enumerate(expr[1]):
+            prev = [j for j in range(i) if expr[1][j][0] == c]
+            if prev:
+                names.append(names[prev[0]])           # the same object again
+            else:
+                names.append("c%d" % i)
+                lines.append("c%d = %s" % (i, expr_code(c)))
+        objs = ", ".join(sorted(set(names)))
+        look = ("lambda: [(str(c), c.structure, c.density, c.name, c.mass, sorted(k for k in vars(c) "
+                "if not k.startswith('_'))) for c in (%s,)]" % objs)
+        lines += ["look = " + look, "before = look()",
+                  "try: %s(%s)" % (fn, ", ".join("%s, %r" % (n, q) for n, (c, q) in zip(names, expr[1]))),
+                  "except Exception as e: print(repr(e))",
+                  "print(before == look())    # expected: True, the caller's objects are unaltered"]
+        acc.violation("mix:%s:argument-altered:%s" % (kind, what), case,
+                      expected="the Formula objects passed to the call are unaltered (%s)" % what[what.find("-") + 1:],
+                      observed="%s of an argument differs after the call" % what,
+                      standalone="\n".join(lines) + "\n", detail=detail)
 
     def _viol(self, acc, sig, case, want, observed, detail=None):
         if isinstance(want, R.Mat):
@@ -343,11 +501,17 @@ def graph_shards(quick, seed):
             else:
                 for first in rotate(range(n), seed):
                     shards.append((pi, kind, first))
+    nev = max(len(hist_events(p)) for p in HIST_PAIRS)
+    for pi in range(len(HIST_PAIRS)):
+        for first in rotate(range(nev), seed):
+            shards.append(("H", pi, first))
     return shards
 
 
 def _graph_shard(arg):
     quick, (pi, kind, first) = arg
+    if pi == "H":
+        return _hist_shard(quick, kind, first)
     aid, k, qs, level, argstr = graph_plans(quick)[pi]
     old, new = ALPHABETS[aid]
     acc = Acc()
@@ -372,10 +536,219 @@ def _graph_shard(arg):
                     if not acc.caps:
                         acc.cap("quantity tuples of a component tuple with > 20 violations not completed")
                     break
+            if not argstr and acc.vcount == v0:
+                g.deep_check(kind, cs, qtuples, acc)
             if acc.states % 4001 < len(qtuples):
                 acc.sample(dict(mode="graph", expr=[kind, [[c[0], q] for c, q in zip(cs, qtuples[-2])]]))
     acc.info["max_depth_completed"] = level
     acc.count("A_events_level_%d%s" % (level, "_string_args" if argstr else ""), acc.states)
+    return acc
+
+
+# ================================================================== Part C: reuse histories
+# Two live objects a, b (built once per history) go through a sequence of events: judged calls in several
+# argument forms (also the same object twice in one call), calls with keyword overrides (their own result is
+# not judged - keywords are outside the property - but they must not leak into the objects or into later
+# calls), and in-place updates of `a` by the caller.  Every judged call must equal the reference prediction
+# for the CURRENT state of the objects, the objects must come back unaltered from every call, and results
+# obtained earlier must not change afterwards.
+HIST_PAIRS = [("H2O@1", "NaCl@2.16"), ("D2O@1n", "Fe"), ("SiO2", "Co"), ("3.2NaCl@2.16", "SiO2"), ("Fe", "H2O@1")]
+HIST_FORMS = {"ab": (("a", 1), ("b", 2)), "ba": (("b", 3), ("a", 0.5)), "aa": (("a", 1), ("a", 2)),
+              "ab0": (("a", 1), ("b", 0)), "a0b": (("a", 0), ("b", 2))}
+HIST_KW = dict(density=9.9, name="mixture")
+
+
+def hist_events(pair):
+    ev = [["call", kind, form] for kind in ("w", "v") for form in sorted(HIST_FORMS)]
+    ev += [["kwcall", kind] for kind in ("w", "v")]
+    ev += [["set", "density", 2.5], ["set", "natural_density", 1.7], ["set", "name", "A"], ["iadd"]]
+    if len(BASE_ATOMS[pair[0]]) > 1:
+        # a single-element Formula without density is given the element's density again by formula(f):
+        # whether "without density" can be said at all for one element is left open
+        ev.append(["set", "density", None])
+    return ev
+
+
+BASE_ATOMS = dict((t, a) for t, a, d in BASE_TABLE)
+BASE_ATOMS.update(("3.2" + t, a) for t, a, d in BASE_TABLE)
+
+
+def event_tag(ev):
+    return "-".join(str(x) for x in ev[:2]) if ev[0] == "set" else ev[0]
+
+
+class History(object):
+    def __init__(self, graph=None):
+        self.g = graph or Graph()
+        self.env = self.g.env
+        self.templates = {}
+
+    def fresh(self, text):
+        """A fresh object per history: formula(template) of a parsed template that is never used otherwise
+        (parsing the text again for each of the histories would dominate the run time)."""
+        if text not in self.templates:
+            self.templates[text] = self.env.formula(text)
+        return self.env.formula(self.templates[text])
+
+    def natural_rho(self, atoms, value):
+        m_iso = R.mass_of(atoms, self.env.amass)
+        m_nat = sum(c * self.env.amass[NATURAL.get(k, k)] for k, c in atoms.items())
+        return value * m_iso / m_nat
+
+    def run(self, pair, events, acc=None):
+        """Executes one history on fresh objects.  -> None or (index of the failing event, kind, cause,
+        expected, observed).  Counts into acc when given."""
+        env, g = self.env, self.g
+        live = {"a": self.fresh(pair[0]), "b": self.fresh(pair[1])}
+        ref = {"a": env.base_ref[pair[0]], "b": env.base_ref[pair[1]]}
+        for f in live.values():
+            observe(f)
+        results = []
+        for i, ev in enumerate(events):
+            if ev[0] == "set":
+                a = ref["a"]
+                if ev[1] == "density":
+                    live["a"].density = ev[2]
+                    ref["a"] = R.Mat(a.atoms, ev[2])
+                elif ev[1] == "natural_density":
+                    live["a"].natural_density = ev[2]
+                    ref["a"] = R.Mat(a.atoms, self.natural_rho(a.atoms, ev[2]))
+                else:
+                    live["a"].name = ev[2]
+                continue
+            if ev[0] == "iadd":
+                f = live["a"]
+                f += live["b"]
+                live["a"] = f
+                atoms = dict(ref["a"].atoms)
+                for k, c in ref["b"].atoms.items():
+                    atoms[k] = atoms.get(k, 0.0) + c
+                ref["a"] = R.Mat(atoms, ref["a"].density)
+                continue
+            kind = ev[1]
+            fn = env.mixw if kind == "w" else env.mixv
+            form = HIST_FORMS["ab" if ev[0] == "kwcall" else ev[2]]
+            args = []
+            for n, q in form:
+                args += [live[n], q]
+            before = dict((n, (cheap_state(f), observe(f))) for n, f in live.items())
+            got = exc = None
+            try:
+                got = fn(*args, **(HIST_KW if ev[0] == "kwcall" else {}))
+            except Exception as e:
+                exc = e
+            if acc is not None:
+                acc.evaluations += 1
+                acc.transitions += 1
+            for n in sorted(live):
+                w = cheap_diff(before[n][0], cheap_state(live[n])) or observe_diff(before[n][1], observe(live[n]))
+                if w:
+                    return (i, kind, "argument-altered:" + w, "the objects passed to the call are unaltered",
+                            "%s of object %s differs after the call" % (w, n))
+            if ev[0] == "kwcall":
+                continue
+            refs = [ref[n] for n, q in form]
+            qs = [q for n, q in form]
+            want = R.mix(kind, list(zip(refs, qs)), env.amass)
+            bad = g.judge(kind, refs, qs, want, got, exc)
+            if bad[0] != "ok":
+                bad = (bad[0], bad[1] + g.zero_cause(kind, args[0::2], refs, qs)) + tuple(bad[2:])
+                exp = ("atoms (up to one common factor) %s density=%r" % (sorted(want.atoms.items()), want.density)
+                       if isinstance(want, R.Mat) else str(want))
+                return (i, kind, bad[1], exp, bad[2])
+            if acc is not None:
+                acc.outcome("C:" + bad[1])
+            if got is not None:
+                results.append((i, kind, got, observe(got)))
+        for i, kind, got, seen in results:
+            w = observe_diff(seen, observe(got))
+            if w:
+                return (i, kind, "result-changed-later:" + w, "a result is not changed by later events",
+                        "%s of the result of event %d differs at the end of the history" % (w, i))
+        return None
+
+    def check(self, pair, events, acc):
+        acc.states += 1
+        nupd = sum(1 for e in events if e[0] in ("set", "iadd"))
+        if events[-1][0] == "call" and (len(events) > 1):
+            acc.nontrivial += 1
+        bad = self.run(pair, events, acc)
+        if bad is None:
+            return True
+        # the cause: the events that are individually necessary for the same failure
+        events = [list(e) for e in events[:bad[0] + 1]]
+        cause = bad[2]
+        progress = True
+        while progress:
+            progress = False
+            for j in range(len(events) - 2, -1, -1):
+                trial = events[:j] + events[j + 1:]
+                b2 = self.run(pair, trial)
+                if b2 is not None and b2[2] == cause and b2[0] == len(trial) - 1:
+                    events, bad, progress = trial, b2, True
+                    break
+        needs = sorted(set(event_tag(e) for e in events[:-1]))
+        sig = "reuse:%s:%s:%s" % (bad[1], cause, "+".join("after-" + t for t in needs) if needs else "fresh-objects")
+        acc.violation(sig, dict(mode="history", pair=list(pair), events=events), expected=bad[3], observed=bad[4],
+                      standalone=history_code(pair, events, bad[3]))
+        return False
+
+
+def history_code(pair, events, expected):
+    lines = ["from periodictable import formula, mix_by_weight, mix_by_volume",
+             "a, b = formula(%r), formula(%r)" % (pair[0], pair[1])]
+    for i, ev in enumerate(events):
+        if ev[0] == "set":
+            lines.append("a.%s = %r" % (ev[1], ev[2]))
+        elif ev[0] == "iadd":
+            lines.append("a += b")
+        else:
+            fn = "mix_by_weight" if ev[1] == "w" else "mix_by_volume"
+            form = HIST_FORMS["ab" if ev[0] == "kwcall" else ev[2]]
+            kw = "".join(", %s=%r" % kv for kv in sorted(HIST_KW.items())) if ev[0] == "kwcall" else ""
+            lines.append("r%d = %s(%s%s)" % (i, fn, ", ".join("%s, %r" % nq for nq in form), kw))
+    last = len(events) - 1
+    lines.append("print(r%d.atoms, r%d.density, (a.structure, a.density, a.name), (b.structure, b.density, b.name))"
+                 % (last, last))
+    lines.append("# expected: %s" % expected)
+    return "\n".join(lines) + "\n"
+
+
+def hist_sequences(pair, first, depth):
+    """All event sequences of length <= depth that start with event `first` and end with a call."""
+    evs = hist_events(pair)
+    for n in range(1, depth + 1):
+        for rest in itertools.product(evs, repeat=n - 1):
+            seq = [evs[first]] + list(rest)
+            if seq[-1][0] in ("call", "kwcall"):
+                yield seq
+
+
+def hist_depth(quick):
+    return 3 if quick else 4
+
+
+def _hist_shard(quick, pi, first):
+    acc = Acc()
+    pair = HIST_PAIRS[pi]
+    if first >= len(hist_events(pair)):
+        return acc
+    H = History()
+    broken = []
+    for seq in hist_sequences(pair, first, hist_depth(quick)):      # by length: prefixes first
+        key = jdump(seq)
+        if any(key.startswith(b) for b in broken):
+            acc.count("skipped_successor_of_violating_state")
+            continue
+        if not H.check(pair, seq, acc):
+            broken.append(key[:-1] + ",")
+            if len(broken) > 20 and not acc.caps:
+                acc.cap("histories of a shard with > 20 violations not completed")
+                break
+        if acc.states % 501 == 1:
+            acc.sample(dict(mode="history", pair=list(pair), events=seq))
+    acc.info["max_history_length"] = hist_depth(quick)
+    acc.count("C_histories", acc.states)
     return acc
 
 
@@ -480,7 +853,10 @@ class Strings(object):
                     else:
                         rho = r.f.density
                         if rho is None:
-                            return Res("excluded", why="zero volume of unknown density") if value == 0 \
+                            # "0 mL X" is translated to grams with the density of X before anything is mixed:
+                            # the quantity of the corresponding call (0 x unknown) is not defined, so the text
+                            # does not say whether this vanishes or is the documented missing-density error
+                            return Res("excluded", why="zero volume UNIT of unknown density") if value == 0 \
                                 else Res("error", why="volume-without-density")
                         q = value * R.VOLUME[unit] * R.CM3_PER_LITRE * rho
                 else:
@@ -504,9 +880,8 @@ class Strings(object):
     def _mix(self, kind, rs, qs, code):
         if kind == "v":
             for r, q in zip(rs, qs):
-                if r.f.density is None:
-                    return Res("excluded", why="zero volume of unknown density") if q == 0 \
-                        else Res("error", why="volume-without-density")
+                if r.f.density is None and q != 0:       # a zero quantity vanishes, with or without density
+                    return Res("error", why="volume-without-density")
         args = []
         for r, q in zip(rs, qs):
             args += [r.f, q]
@@ -599,6 +974,7 @@ class Strings(object):
                 verdict2, fail, info = self.run_one(mnode, mlex)
                 if verdict2 != "FAIL" or fail[0] != check:
                     raise MachineryError("minimised case does not fail: %s" % R.render(mnode, mlex))
+            left = self.generalise(mnode, mlex, check, left)
             # a cause that needs a parenthesised part lives in the handling of parts, whatever the outer family
             fam = "part" if "nested" in left else FAMILY[mnode[1]]
             sig = "string:%s:%s:%s" % (fam, check, "+".join(left) if left else "plain")
@@ -616,6 +992,19 @@ class Strings(object):
         acc.evaluations += self.ncalls - n0
         self.memo[key] = verdict
         return verdict
+
+    def generalise(self, node, lex, check, left):
+        """A spelling that is necessary for the failure is named by its shape ('%word' / 'word%') when every
+        spelling of that shape fails in the same way - the cause is then the shape, not the word."""
+        out = []
+        for f in left:
+            if f.split("=")[0] in ("first", "later") and f.split("=", 1)[1] != "%":
+                sibs = [R.respell(node, f, i) for i in range(len(R.WEIGHT_WORDS))]
+                sibs = [n for n in sibs if n is not None]
+                if len(sibs) > 1 and all(self.fails(n, lex, check) for n in sibs):
+                    f = f.split("=")[0] + "=" + R.spelling_class(f.split("=", 1)[1])
+            out.append(f)
+        return sorted(set(out))
 
     def fails(self, node, lex, check):
         key = (jdump(node), lex["sep"], lex["cs"], check)
@@ -716,6 +1105,10 @@ def block_units(quick):
                         out.append((Q(fam, [U(v1, u1, C(c1)), U(v2, u2, C(c2))]), CANON))
                 for c1, c2 in (("SiO2", "Fe"), ("Fe", "SiO2")):
                     out.append((Q(fam, [U("1", u1, C(c1)), U("2", u2, C(c2))]), CANON))
+                    # a zero amount of the part without density (vanishes; a zero volume UNIT is left open)
+                    v1, v2 = ("0.0", "2") if c1 == "SiO2" else ("2", "0.0")
+                    out.append((Q(fam, [U(v1, u1, C(c1)), U(v2, u2, C(c2))]), CANON))
+                    out.append((Q(fam, [U(v1, u1, C(c1)), U(v2, u2, C(c2)), U("3", u1, C("Co"))]), CANON))
                 for lex in lexes():
                     out.append((Q(fam, [U("1", u1, C("NaCl@2.16")), U("2", u2, C("H2O@1"))]), lex))
     # three parts: every unit triple
@@ -797,7 +1190,59 @@ def block_groups(quick):
     return out
 
 
-BLOCKS = (("spellings", block_spellings), ("percentages", block_percentages), ("units", block_units),
+COLLISION_COMPOUNDS = ("WO3@7.16", "W2C", "MoS2@5.06", "MgO@3.58", "MnO2", "V2O5@3.36", "VN@6.13", "UO2@10.97",
+                       "GeO2", "KCl@1.98", "LiF@2.64", "NH3", "CO2")
+# parts whose formula unit is written scaled (a leading count directly after the blank that follows % or a unit)
+SCALED_PARTS = ("3.2H2O@1", "2Fe", "0.5NaCl@2.16", "2MgO@3.58", "2SiO2")
+
+
+def collision_components(quick):
+    """Compounds whose leading symbol collides with a percent word or a unit spelling: every element of the
+    library's table whose symbol begins (case-insensitively) with a letter that begins one of those words
+    (thorough: every element), with its own density or tagged @5 when it has none, plus a few compounds."""
+    pt = load_pt()
+    out = []
+    for el in pt.elements:
+        if el.number > 0 and (not quick or R.collides(el.symbol)):
+            out.append(el.symbol if el.density is not None else el.symbol + "@5")
+    return out + [c for c in COLLISION_COMPOUNDS]
+
+
+def block_collisions(quick):
+    return part_forms(collision_components(quick))
+
+
+def block_scaled(quick):
+    return part_forms(SCALED_PARTS)
+
+
+def part_forms(texts):
+    """One part X directly after every percent spelling, the bare % and every unit, as first / later / last part."""
+    out = []
+    css = [dict(sep=" // ", cs=c) for c in ("", " ")]
+    for X in [C(t) for t in texts]:
+        forms = []
+        for kind, sps in (("w", R.WEIGHT_SPELLINGS), ("v", R.VOLUME_SPELLINGS)):
+            canon = R.CANON_SPELLING[kind]
+            for sp in sps:                                   # directly after every spelling of the first part
+                forms.append(P(kind, [("10", sp, X)], C("Ni")))
+            for sp in ("%",) + sps:                          # after the bare % and every spelling of a later part
+                forms.append(P(kind, [("10", canon, C("Fe")), ("15", sp, X)], C("Ni")))
+            forms.append(P(kind, [("10", canon, C("Fe")), ("15", "%", C("Co")), ("20", "%", X)], C("Ni")))
+            forms.append(P(kind, [("10", canon, C("Fe"))], X))                         # as the remainder
+            forms.append(P(kind, [("10", canon, C("Fe")), ("15", "%", C("Co"))], X))
+        for fam, units, base in (("m", R.MV_ORDER, "g"), ("l", R.LENGTH_ORDER, "nm")):
+            for u in units:                                  # directly after every unit, first / later / last part
+                forms.append(Q(fam, [U("2", u, X)]))
+                forms.append(Q(fam, [U("2", u, X), U("3", base, C("Fe"))]))
+                forms.append(Q(fam, [U("3", base, C("Fe")), U("2", u, X)]))
+        for node in forms:
+            for lex in css:
+                out.append((node, lex))
+    return out
+
+
+BLOCKS = (("collisions", block_collisions), ("scaled", block_scaled), ("spellings", block_spellings), ("percentages", block_percentages), ("units", block_units),
           ("nested", block_nested), ("groups", block_groups))
 
 
@@ -882,7 +1327,9 @@ def replay(ctx, case, signature=None):
         comps = [g.component(c, acc) for c, q in parts]
         if any(c is None for c in comps):
             return
-        g.event(kind, comps, [q for c, q in parts], acc, case.get("argstr", False))
+        g.event(kind, comps, [q for c, q in parts], acc, case.get("argstr", False), deep=True)
+    elif case.get("mode") == "history":
+        History().check(tuple(case["pair"]), case["events"], acc)
     elif case.get("mode") == "string":
         Strings().status(case["ast"], case["lex"], acc)
     else:
